@@ -14,6 +14,15 @@ class BytesReader(BytesIO):
         self.source = source
         self.exception = exception
 
+    def read(self, size: Optional[int] = -1) -> bytes:
+        data = super().read(size)
+        if size is not None and size >= 0 and len(data) != size:
+            source = "" if self.source is None else " of " + str(self.source)
+            raise self.exception(
+                "Unexpected end of data{source}".format(source=source)
+            )
+        return data
+
     def read_int(self, num_bytes: int) -> int:
         return int.from_bytes(self.read(num_bytes), "big")
 
